@@ -81,3 +81,25 @@ package keeper
 //@ func (k Keeper).EscrowReporterStake(ctx, reporterAddr, power, height, amt, queryId, hashId) (err)
 //@ trusted
 //@ modifies reporter.*, staking.*, bank.bal
+
+// ---- following disputed stake into unbonding entries (C11, C05) ----
+// ubal(s, n) is the total balance of the first n unbonding entries of s; tokens0 is the value of the parameter
+// tokens on entry (the body reassigns it).
+
+//@ define ubal(s, n) = sum j in [0, n) :: s[j].Balance
+
+//@ func (k Keeper).deductUnbondingDelegation(ctx, delAddr, valAddr, tokens0) (left, err)
+//@ requires [amount_non_negative] tokens0 >= 0
+//@ modifies bank.bal
+//@ ensures [left_within_request] err == nil ==> 0 <= left && left <= tokens0
+//@ ensures [escrowed_equals_deducted] err == nil ==> bank.bal[module("dispute")] == old(bank.bal[module("dispute")]) + (tokens0 - left) && bank.bal[module("not_bonded_tokens_pool")] == old(bank.bal[module("not_bonded_tokens_pool")]) - (tokens0 - left)
+//@ ensures [only_pool_and_escrow_touched] forall a addr :: a != module("dispute") && a != module("not_bonded_tokens_pool") ==> bank.bal[a] == old(bank.bal[a])
+//@ ensures [entries_written_back_reduced_by_the_same_amount] err == nil && called(SetUnbondingDelegation) ==> ubal(arg(SetUnbondingDelegation, ubd).Entries, len(arg(SetUnbondingDelegation, ubd).Entries)) == ubal(ret(GetUnbondingDelegation, 0).Entries, len(ret(GetUnbondingDelegation, 0).Entries)) - (tokens0 - left)
+//@ ensures [delegation_removed_only_when_fully_consumed] err == nil && called(RemoveUnbondingDelegation) ==> ubal(ret(GetUnbondingDelegation, 0).Entries, len(ret(GetUnbondingDelegation, 0).Entries)) == tokens0 - left
+//@ ensures [nothing_left_unless_entries_exhausted] err == nil && left > 0 ==> called(RemoveUnbondingDelegation)
+//@ loop 0 "for _, u := range ubd.Entries"
+//@ loop 0 invariant [amounts_non_negative] tokens >= 0 && removeAmt >= 0
+//@ loop 0 invariant [deducted_so_far] removeAmt == tokens0 - tokens
+//@ loop 0 invariant [kept_plus_removed_is_seen] ubal(kept, len(kept)) + removeAmt == ubal(ubd.Entries, $i)
+//@ loop 0 invariant [done_means_nothing_left] done ==> tokens == 0
+//@ loop 0 invariant [not_done_means_all_seen_consumed] !done ==> len(kept) == 0
